@@ -639,6 +639,18 @@ func (c *Ctx) apiStatusVerbatim(rule string) {
 				if fieldLoadName(e) == "Code" {
 					continue
 				}
+				// "no status asked for" spelled as the literal the requested code was
+				// just found to equal (and which the write is guarded against)
+				if k, isC := ConstInt(e); isC && HoldsGiven(FactsAtEdge(phi.Block().Preds[i], phi.Block()), func(f Fact) bool {
+					rel := f.Rel()
+					if rel.Op != token.EQL {
+						return false
+					}
+					kk, isK := ConstInt(rel.Y)
+					return isK && kk == k && fieldLoadName(rel.X) == "Code"
+				}) {
+					continue
+				}
 				if !HoldsGiven(FactsAtEdge(phi.Block().Preds[i], phi.Block()), isCoerce) {
 					coerced = false
 				}
@@ -1150,7 +1162,7 @@ func (c *Ctx) secretEntropy(rule string) {
 				if cn == "encoding/hex.Encode" {
 					di, si = 0, 1
 				}
-				if d, sr := entropyBufRoot(Arg(call, di)), entropyBufRoot(Arg(call, si)); d != nil && d == sr {
+				if d, sr := entropyBufRoot(Arg(call, di)), entropyBufRoot(Arg(call, si)); d != nil && d == sr && !disjointRegions(Arg(call, di), Arg(call, si), d) {
 					r.Bad(rule, name, "encode in place", posf(c, call), "the value is encoded into the buffer it is read from ("+SafeString(d)+"): the encoder overwrites bytes it has not read yet, so the encoded secret depends on only part of the random bytes")
 				}
 				continue
@@ -2109,4 +2121,30 @@ func entropyBufRoot(v ssa.Value) ssa.Value {
 		break
 	}
 	return v
+}
+
+// disjointRegions: two slices of one allocation that cannot overlap: one ends
+// (its high bound) where the other begins (its low bound).
+func disjointRegions(a, b, root ssa.Value) bool {
+	outer := func(v ssa.Value) *ssa.Slice {
+		var last *ssa.Slice
+		for d := 0; d < 10; d++ {
+			v = stripConv(v)
+			sl, ok := v.(*ssa.Slice)
+			if !ok {
+				break
+			}
+			last = sl
+			if stripConv(sl.X) == root {
+				return sl
+			}
+			v = sl.X
+		}
+		return last
+	}
+	sa, sb := outer(a), outer(b)
+	if sa == nil || sb == nil || stripConv(sa.X) != root || stripConv(sb.X) != root {
+		return false
+	}
+	return (sa.Low != nil && sb.High != nil && sameBound(sa.Low, sb.High)) || (sb.Low != nil && sa.High != nil && sameBound(sb.Low, sa.High))
 }
